@@ -69,11 +69,54 @@ PROPS["C18"] = {
     "technique": "Lean 4 theorems over BitVec 64 definitions translated from the Rust source on every run + differential correspondence",
 }
 
+PROPS["C15"] = {
+    "modules": ["TaffyVerif.Props.C15", "TaffyVerif.Props.C15Pass", "TaffyVerif.Props.C02"],
+    "theorems": [
+        "C15.facts", "Dirty.markDirty_spec", "C15.step_preserves_K", "C15.K_reachable", "C15.I_reachable",
+        "C15.mutation_dirties_exactly", "C15.ancestors_dirty", "C15.already_dirty_noop",
+        "C15Pass.visit_good", "C15Pass.pass_cleans", "C15Pass.Clean_not_dirty", "C15Pass.hit_is_identity",
+        "C02.hit_until_displaced_final", "C02.flag_agrees",
+    ],
+    "harness": "C15", "driver": "C15", "monitor": False,
+    "rule": "random histories (4–33 ops) of every TaffyTree mutator (new_leaf[_with_context], set_style incl. display:none "
+            "toggles, set_node_context, add/insert/replace child, remove_child_at_index, remove_children_range, set_children "
+            "with reparenting, remove, mark_dirty) and layout passes from parentless nodes with two available spaces, half of the "
+            "passes repeating the previous one; after every op the dirty flag of every node is compared with the model. "
+            "Non-trivial = the history contains an attach, a reparenting, a removal or a pass; distinct = distinct transcripts.",
+    "trusted_base": [
+        "which mutator calls mark_dirty on which node is extracted from src/tree/taffy_tree.rs on every run "
+        "(Generated/Facts.lean, my syn-based extractor); theorem C15.facts pins the values the proofs rely on",
+        "flat model Model/Dirty.lean (mutators) and rose-tree model Model/DirtyPass.lean (passes, all hit/miss and "
+        "child-visit decisions universally quantified) are hand-written; the flat model is tied to TaffyTree by comparing every "
+        "node's dirty flag after every operation; the link flat ↔ rose tree (a root's subtree is a tree) is not proved here "
+        "(forest shape is C14's subject)",
+        "modelled assumption about the three container algorithms: a PerformLayout-mode evaluation performs a PerformLayout "
+        "query on every child, and display:none children are never measured (validated by the implementation-side oracle "
+        "`every node reachable without crossing display:none is clean after a pass`)",
+    ],
+    "assumptions": ["mark_dirty's recursion is modelled with fuel (next+1); running out of fuel is an explicit outcome, "
+                    "never observed; in a forest it cannot happen"],
+    "undischarged": ["second_pass_no_measure is the conjunction of C02.hit_until_displaced_final (the root's final entry "
+                     "is hit by the same key) and C15Pass.hit_is_identity (a hit visits nothing); that compute_root_layout "
+                     "derives the same key from an unchanged style and available space is checked on the implementation "
+                     "(oracle sig:c15-second-pass-measures), not proved"],
+    "level_text": "Theorems: every mutator (with the mark_dirty call extracted from the source) preserves the invariant K, which "
+                  "implies that a dirty node's parent is dirty or display:none — the fact that makes mark_dirty's early exit "
+                  "sound — for every history; mark_dirty dirties the target and all ancestors up to the first display:none one, "
+                  "only ever clears flags, touches nothing outside the ancestor chain and is a no-op on a dirty target; every "
+                  "resolution of a layout pass (all hit/miss decisions, any number and order of child measurements) preserves the "
+                  "invariant and leaves every node reachable without crossing display:none clean; a hit at the root visits nothing.",
+    "level_note": "Trusted: Lean kernel; extractor for the mark_dirty table; hand-written models tied by flag-for-flag "
+                  "correspondence on generated histories. Axioms: propext, Classical.choice, Quot.sound.",
+    "technique": "Lean 4 invariant proofs (induction over mutator histories; induction over pass fuel for all choice streams) "
+                 "+ extracted mark_dirty table + differential correspondence of dirty flags",
+}
+
 HOOK_COMMITS = [
     "5207efe",
 ]
 
 _pending = "check not built yet in this revision of /verif (planned, see DESIGN.md §8)"
 NOT_APPLICABLE = {p: _pending for p in
-                  ["C01", "C03", "C04", "C05", "C06", "C07", "C08", "C09", "C10", "C11", "C12", "C13", "C14", "C15", "C16", "C17", "C19"]}
+                  ["C01", "C03", "C04", "C05", "C06", "C07", "C08", "C09", "C10", "C11", "C12", "C13", "C14", "C16", "C17", "C19"]}
 
